@@ -608,6 +608,11 @@ class FnAnalysis:
             v = ("len", args[0])
             self._reg(v, "usize")
             return mk_in(v, "usize", ((0, 0),))
+        nc = sym._num_conv(name, t)
+        if nc is not None and len(args) == 1 and nc[0] in INT_TYS and nc[1] in INT_TYS:
+            v = cast(args[0], nc[0], nc[1])
+            self._reg(v, nc[1])
+            return v
         m = eng.value_models.get(name) or eng.value_models.get(decl)
         if m:
             v = m(self, st, t, args)
